@@ -2,7 +2,8 @@
    step neither panics nor runs out of fuel (continuation of the list at the end of NoCrashP.v). *)
 From Coq Require Import ZArith Bool List.
 From AxV Require Import Bits Outcome Codes Iced State Rt Mem Trace ISA CodeSem NoCrashP
-  Alu16P Alu8P Unary16P Unary8P ShiftP Shift32P Shift16P Shift8P MulP XmmP.
+  RegsP ByteStore MovxP Alu32P Alu16P Alu8P Unary16P Unary8P ShiftP Shift32P Shift16P Shift8P MulP XmmP DivP Div32P Div16P.
+From AxG Require Import I_div I_idiv.
 Local Open Scope Z_scope.
 
 Lemma alu16_refines_no_crash i s op run : alu16_refines i s op run -> no_crash (fst run).
@@ -33,3 +34,33 @@ Lemma mul_refines_no_crash sm i s run : mul_refines sm i s run -> no_crash (fst 
 Proof. unfold mul_refines. intros H. nc_from H. Qed.
 Lemma xmm_refines_no_crash i s sm run : xmm_refines i s sm run -> no_crash (fst run).
 Proof. unfold xmm_refines. intros H. nc_from H. Qed.
+
+(* the division theorems are stated as a match on the specification's result: every branch is Ok or Err *)
+Lemma div_style_no_crash (r : isa_result) (s : mstate) (run : outcome unit * mstate) :
+  match r with
+  | IDone s' _ => run = (Ok tt, s')
+  | IFault FDivide => run = (Err EDivZero, s)
+  | IFault FMem => exists e, run = (Err e, s)
+  | IFault _ => False
+  end -> no_crash (fst run).
+Proof.
+  destruct r as [s' u|[]]; intros H; try contradiction; try (rewrite H; exact I); destruct H as [e H]; rewrite H; exact I.
+Qed.
+
+Theorem div_idiv_no_crash c i s :
+  wf_regs s -> Inv (mem s) -> i_op_count i = 1 ->
+  (rm32_shape i 0 -> i_code i = C_Div_rm32 -> no_crash (fst (instr_div_rm32 c i s))) /\
+  (rm32_shape i 0 -> i_code i = C_Idiv_rm32 -> no_crash (fst (instr_idiv_rm32 c i s))) /\
+  (rm16_shape i 0 -> i_code i = C_Div_rm16 -> no_crash (fst (instr_div_rm16 c i s))) /\
+  (rm16_shape i 0 -> i_code i = C_Idiv_rm16 -> no_crash (fst (instr_idiv_rm16 c i s))) /\
+  (rm8_shape i 0 -> i_code i = C_Div_rm8 -> no_crash (fst (instr_div_rm8 c i s))) /\
+  (rm8_shape i 0 -> i_code i = C_Idiv_rm8 -> no_crash (fst (instr_idiv_rm8 c i s))).
+Proof.
+  intros Hwf HI Hn. repeat split; intros Hs Ec.
+  - exact (div_style_no_crash _ s _ (div_rm32_refines c i s Hwf HI Hn Hs Ec)).
+  - exact (div_style_no_crash _ s _ (idiv_rm32_refines c i s Hwf HI Hn Hs Ec)).
+  - exact (div_style_no_crash _ s _ (div_rm16_refines c i s Hwf HI Hn Hs Ec)).
+  - exact (div_style_no_crash _ s _ (idiv_rm16_refines c i s Hwf HI Hn Hs Ec)).
+  - exact (div_style_no_crash _ s _ (div_rm8_refines c i s Hwf HI Hn Hs Ec)).
+  - exact (div_style_no_crash _ s _ (idiv_rm8_refines c i s Hwf HI Hn Hs Ec)).
+Qed.
